@@ -25,6 +25,8 @@ def conversations(ctx):
         ([("query", cmd_query(b"q4"))], ["q start 1 %s wr 1 i32:1 p ferr 1064 6f6f7073" % c1]),
         ([("query", cmd_query(b"q5"))], ["q err 1146 6e6f"]),
         ([("query", cmd_query(b"q6"))], ["q c1 1 1 drop"]),
+        ([("query", cmd_query(b"q8"))], ["q start 1 %s drop" % c1]),
+        ([("query", cmd_query(b"q9"))], ["q start 1 %s wc i32:5 p drop" % c1]),
         ([("query", cmd_query(b"SELECT @@max_allowed_packet"))], []),
         ([("init", cmd_init(b"db"))], ["i ok"]),
         ([("query", cmd_query(b"USE `x`;"))], ["i err 1049 6e6f6462"]),
@@ -36,12 +38,17 @@ def conversations(ctx):
         ([("prepare", cmd_prepare(b"p"))], ["p err 1064 62"]),
         ([("query", cmd_query(b"q7"))], ["q done 0 0 ret:55"]),
     ]
-    for cmds, scripts in base:
+    # what follows the command under test decides how a swallowed error would show: nothing (the
+    # stream ends / QUIT: run_on would return Ok), a callback-bearing command (it would be started
+    # after the fault), or a library-answered command first
+    tails = [[], [("query", cmd_query(b"after"))], [("ping", cmd_ping()), ("query", cmd_query(b"after"))]]
+    for bi, (cmds, scripts) in enumerate(base):
         for lim in ((U24_MAX,) if ctx.quick() else (U24_MAX, 7)):
-            for quit in (False, True):
-                convs.append((cmds + [("ping", cmd_ping())], scripts, lim, quit))
-    if ctx.quick():
-        convs = convs[::2]
+            for ti, tail in enumerate(tails):
+                for quit in (False, True):
+                    if ctx.quick() and (bi + ti + quit) % 2:
+                        continue
+                    convs.append((cmds + tail, scripts, lim, quit))
     return convs
 
 
